@@ -219,8 +219,7 @@ def expected_open(root: Path, t, exists) -> tuple[list[str], int] | None:
 
 def run_dir(acc: Acc, seed: int, idx: int, nlines: int, only=None) -> None:
     rng = rng_for(ID, seed, f"d{idx}")
-    root = harness.fresh_dir("c17") / "org"
-    root.mkdir()
+    root = harness.notes_root("c17", idx)
     with frozen(TODAY):
         owners = build_dir(rng, root)
         r = db.cli(root, "db", "create")
